@@ -31,12 +31,8 @@ pub mod layout {
     macro_rules! thread_local {
         ($($t:tt)*) => { shuttle::thread_local!{ $($t)* } };
     }
-    // the programs are compiled inside the harness crate: compile-time crate paths must still
-    // point at the crate they belong to
-    macro_rules! env {
-        ("CARGO_MANIFEST_DIR") => { "/repo/unic-langid-impl" };
-        ($($t:tt)*) => { ::core::env!($($t)*) };
-    }
+    // compile-time crate paths (`env!("CARGO_MANIFEST_DIR")`) name the repository crate: build.rs
+    // overrides that variable for this compilation
     include!(concat!(env!("OUT_DIR"), "/generate_layout.rs"));
     pub fn run() {
         super::MainReturn::finish(main());
@@ -71,12 +67,8 @@ pub mod likely {
     macro_rules! thread_local {
         ($($t:tt)*) => { shuttle::thread_local!{ $($t)* } };
     }
-    // the programs are compiled inside the harness crate: compile-time crate paths must still
-    // point at the crate they belong to
-    macro_rules! env {
-        ("CARGO_MANIFEST_DIR") => { "/repo/unic-langid-impl" };
-        ($($t:tt)*) => { ::core::env!($($t)*) };
-    }
+    // compile-time crate paths (`env!("CARGO_MANIFEST_DIR")`) name the repository crate: build.rs
+    // overrides that variable for this compilation
     include!(concat!(env!("OUT_DIR"), "/generate_likelysubtags.rs"));
     pub fn run() {
         super::MainReturn::finish(main());
